@@ -87,7 +87,7 @@ var propRules = map[string]*PropSpec{
 		Technique:   "static analysis: constant folding (go/constant), truth tables over normalised branch conditions, affine expression comparison",
 	},
 	"C07": {
-		Rules:       []string{"A1.kernel", "A6.kernel", "A2.32", "A3.32", "A2.64", "A3.64", "A1.api32", "A1.api64", "A1.slices", "F9", "F5"},
+		Rules:       []string{"A1.kernel", "A6.kernel", "A2.32", "A3.32", "A2.64", "A3.64", "A1.api32", "A1.api64", "A1.slices", "F9", "F5", "A7"},
 		Explanation: explBase + " C07 (strongest claim): a container reachable from two tables is flagged in both before either writes; every payload write goes through an owned container; every slot store is an owned store, a flagged move or a certified clone-or-share hand-off; aggregates return independent bitmaps; read-only functions change neither bitmaps nor the caller's slice.",
 		Decided: []string{
 			"write gate: every call that may write a container's payload has an owned receiver (32-bit containers and 64-bit buckets)",
@@ -96,6 +96,7 @@ var propRules = map[string]*PropSpec{
 			"no exported read-only function changes a bitmap argument's contents; documented mutators change only their receiver",
 			"no exported function writes the backing array of a slice argument",
 			"aggregates of one bitmap return a fresh bitmap",
+			"no bitmap / table struct is duplicated by value from a bitmap that stays in use (two headers over the same arrays)",
 		},
 		NotDecided: []string{"for >= 2 inputs HeapOr/HeapXor's result is the last pushed Or/Xor result (loop-count argument)", "that gate-obtained containers are not shared again before the write inside one function (assumed)"},
 		Technique:  techOwn,
@@ -178,9 +179,9 @@ var propRules = map[string]*PropSpec{
 		Technique:   techErr,
 	},
 	"C19": {
-		Rules:       []string{"PC1", "B1", "P1"},
+		Rules:       []string{"PC1", "B1", "P1", "A7"},
 		Explanation: explBase + " C19: every whole-index operation touches every plane including the sign plane; (un)marshal errors propagate; per-plane goroutines are joined.",
-		Decided:     []string{"Clone/NewBSIRetainSet, ClearValues, ParOr, RunOptimize, Equals, WriteTo/ReadFrom ... iterate over all len(bA) planes (sign plane included)", "Marshal/Unmarshal/WriteTo/ReadFrom propagate errors", "per-plane goroutines are paired with a WaitGroup"},
+		Decided:     []string{"Clone/NewBSIRetainSet, ClearValues, ParOr, RunOptimize, Equals, WriteTo/ReadFrom ... iterate over all len(bA) planes (sign plane included)", "Marshal/Unmarshal/WriteTo/ReadFrom propagate errors", "per-plane goroutines are paired with a WaitGroup", "Clone/NewBSIRetainSet copy planes only from freshly cloned bitmaps (no shared headers)"},
 		NotDecided:  []string{"two's-complement encode/decode", "ripple-carry addition", "auto-widening / sign extension arithmetic"},
 		Technique:   "static analysis: loop-bound vs slice-length agreement over go/ssa; error-flow rules",
 	},
